@@ -179,6 +179,16 @@ Fixpoint wfq_pop (fuel : nat) (fl : list wflow) (removed : Z) : list wflow * opt
 Record dstats := MkDS { ds_enq : Z; ds_deq : Z; ds_exp : Z; ds_rej : Z }.
 Definition ds0 := MkDS 0 0 0 0.
 
+(* RED statistics: enqueued dequeued dropped(probabilistic+forced) capacity_rejected *)
+Record rstats := MkRS { rs_enq : Z; rs_deq : Z; rs_drop : Z; rs_rej : Z }.
+Definition rs0 := MkRS 0 0 0 0.
+(* CoDel statistics: enqueued dequeued dropped capacity_rejected *)
+Record cstats := MkCS { cs_enq : Z; cs_deq : Z; cs_drop : Z; cs_rej : Z }.
+Definition cs0 := MkCS 0 0 0 0.
+(* AdaptiveLIFO statistics: enqueued dequeued_fifo dequeued_lifo capacity_rejected mode_switches *)
+Record astats := MkAS { as_enq : Z; as_df : Z; as_dl : Z; as_rej : Z; as_sw : Z }.
+Definition as0 := MkAS 0 0 0 0 0.
+
 Inductive pol :=
 | PFifo (cap : option Z) (l : list item)                      (* deque, oldest first *)
 | PLifo (cap : option Z) (l : list item)                      (* deque, NEWEST first *)
@@ -186,7 +196,17 @@ Inductive pol :=
 | PDead (cap : option Z) (ctr : Z) (h : list entry) (st : dstats)
 | PFair (maxf pfc : option Z) (fl : flows) (total : Z) (st : fstats)
 | PWfq (cap pfc : option Z) (fl : list wflow) (total : Z) (st : wstats)
-| PBalk (thr : Z) (balked : Z) (inner : pol).                  (* BalkingQueue *)
+| PBalk (thr : Z) (balked : Z) (inner : pol)                   (* BalkingQueue *)
+(** queue_policies/red.py: the early-drop decision (EWMA of the depth in
+    floats + random draw) is an explicit input of push, like the balking draw. *)
+| PRed (cap : Z) (l : list item) (st : rstats)
+(** queue_policies/codel.py: the number of items the control law (floats,
+    sqrt) drops after each successful pop is read from a schedule held in the
+    state (an oracle stream, like an RNG stream; theorems hold for every
+    schedule). *)
+| PCodel (cap : option Z) (l : list item) (sched : list Z) (st : cstats)
+(** queue_policies/adaptive_lifo.py *)
+| PAdapt (thr : Z) (cap : option Z) (l : list item) (wasc : bool) (st : astats).
 
 Fixpoint pol_len (s : pol) : Z :=
   match s with
@@ -194,6 +214,7 @@ Fixpoint pol_len (s : pol) : Z :=
   | PPrio _ _ h | PDead _ _ h _ => zlen h
   | PFair _ _ _ total _ | PWfq _ _ _ total _ => total
   | PBalk _ _ i => pol_len i
+  | PRed _ l _ | PCodel _ l _ _ | PAdapt _ _ l _ _ => zlen l
   end.
 
 (** Items held, as ids (for the conservation ledger). *)
@@ -204,6 +225,7 @@ Fixpoint pol_ids (s : pol) : list Z :=
   | PFair _ _ fl _ _ => flat_map (fun p : Z * list item => map iid (snd p)) fl
   | PWfq _ _ fl _ _ => flat_map (fun w => map iid (wf_q w)) fl
   | PBalk _ _ i => pol_ids i
+  | PRed _ l _ | PCodel _ l _ _ | PAdapt _ _ l _ _ => map iid l
   end.
 
 (** [push].  [balk] is the outcome of [random.random() < balk_probability]
@@ -259,6 +281,20 @@ Fixpoint pol_push (balk : bool) (it : item) (s : pol) : pol * bool :=
   | PBalk thr balked i =>
       if (thr <=? pol_len i) && balk then (PBalk thr (balked + 1) i, false)
       else let '(i', ok) := pol_push balk it i in (PBalk thr balked i', ok)
+  | PRed cap l st =>
+      if cap <=? zlen l
+      then (PRed cap l (MkRS (rs_enq st) (rs_deq st) (rs_drop st) (rs_rej st + 1)), false)
+      else if balk
+      then (PRed cap l (MkRS (rs_enq st) (rs_deq st) (rs_drop st + 1) (rs_rej st)), false)
+      else (PRed cap (l ++ [it]) (MkRS (rs_enq st + 1) (rs_deq st) (rs_drop st) (rs_rej st)), true)
+  | PCodel cap l sched st =>
+      if cap_full cap (zlen l)
+      then (PCodel cap l sched (MkCS (cs_enq st) (cs_deq st) (cs_drop st) (cs_rej st + 1)), false)
+      else (PCodel cap (l ++ [it]) sched (MkCS (cs_enq st + 1) (cs_deq st) (cs_drop st) (cs_rej st)), true)
+  | PAdapt thr cap l wasc st =>
+      if cap_full cap (zlen l)
+      then (PAdapt thr cap l wasc (MkAS (as_enq st) (as_df st) (as_dl st) (as_rej st + 1) (as_sw st)), false)
+      else (PAdapt thr cap (l ++ [it]) wasc (MkAS (as_enq st + 1) (as_df st) (as_dl st) (as_rej st) (as_sw st)), true)
   end.
 
 (** [pop] at clock [now]: new state, result, items expired (DeadlineQueue). *)
@@ -296,6 +332,32 @@ Fixpoint pol_pop (now : Z) (s : pol) : pol * option item * list item :=
       end
   | PBalk thr balked i =>
       let '(i', res, ex) := pol_pop now i in (PBalk thr balked i', res, ex)
+  | PRed cap l st =>
+      match l with
+      | [] => (s, None, [])
+      | it :: r => (PRed cap r (MkRS (rs_enq st) (rs_deq st + 1) (rs_drop st) (rs_rej st)), Some it, [])
+      end
+  | PCodel cap l sched st =>
+      match l with
+      | [] => (s, None, [])
+      | it :: r =>
+          let nd := Z.to_nat (hd 0 sched) in
+          let dropped := firstn nd r in
+          (PCodel cap (skipn nd r) (tl sched)
+             (MkCS (cs_enq st) (cs_deq st + 1) (cs_drop st + zlen dropped) (cs_rej st)), Some it, dropped)
+      end
+  | PAdapt thr cap l wasc st =>
+      match l with
+      | [] => (s, None, [])
+      | it0 :: _ =>
+          let cong := thr <=? zlen l in
+          let sw := if Bool.eqb cong wasc then as_sw st else as_sw st + 1 in
+          if cong
+          then (PAdapt thr cap (removelast l) cong
+                  (MkAS (as_enq st) (as_df st) (as_dl st + 1) (as_rej st) sw), Some (last l it0), [])
+          else (PAdapt thr cap (tl l) cong
+                  (MkAS (as_enq st) (as_df st + 1) (as_dl st) (as_rej st) sw), Some it0, [])
+      end
   end.
 
 (** Capacity as reported by the [capacity] property (None = inf). *)
@@ -305,6 +367,8 @@ Fixpoint pol_cap (s : pol) : option Z :=
   | PFair maxf pfc _ _ _ =>
       match maxf, pfc with Some m, Some c => Some (m * c) | _, _ => None end
   | PBalk _ _ i => pol_cap i
+  | PRed cap _ _ => Some cap
+  | PCodel cap _ _ _ | PAdapt _ cap _ _ _ => cap
   end.
 
 (* ------------------------------------------------------------------ *)
@@ -601,6 +665,9 @@ Fixpoint pol_counters (s : pol) : list Z :=
   | PWfq _ _ fl _ st => [zlen fl; ws_enq st; ws_deq st; ws_rej st; ws_cr st; ws_rm st]
                         ++ flat_map (fun w => [wf_id w; wf_w w; wf_cr w]) fl
   | PBalk _ b i => b :: pol_counters i
+  | PRed _ _ st => [rs_enq st; rs_deq st; rs_drop st; rs_rej st]
+  | PCodel _ _ _ st => [cs_enq st; cs_deq st; cs_drop st; cs_rej st]
+  | PAdapt _ _ _ wasc st => [if wasc then 1 else 0; as_enq st; as_df st; as_dl st; as_rej st; as_sw st]
   end.
 
 Definition psnap := (Z * list Z * list Z)%type.
